@@ -91,7 +91,8 @@ def run(chk):
                 "invocations over three names) with the contract verdict (rejected / effective set) and model-checks "
                 "Detect.tla for every needs assignment, every effective set and every visiting order; each invocation is "
                 "run through the CLI on generated repositories where each validator has 0..2 violations (diff mode, so "
-                "affects takes part), several times each (fresh HashMap order per process); non-trivial = invocation "
+                "affects takes part; glob + diff with one file in scope through the diff only; plain scan; rejected "
+                "invocations also with nothing in scope), several times each (fresh HashMap order per process); non-trivial = invocation "
                 "that changes the report or is rejected")
     # Detect: exhaustive over needs x -e/-d x visiting order
     cfg = rc.set_consts("MC_Detect", NDets=3, NFiles=2, NBlocks=2) if quick else rc.set_consts("MC_Detect", NDets=4, NFiles=2, NBlocks=2)
@@ -122,7 +123,17 @@ def run(chk):
             for rep in range(3):
                 cases.append({"id": "base-%d-%d" % (ri, rep), "files": r["files"], "diff": r["diff"], "args": [],
                               "terminal": False, "env": env})
+            # the same repository asked for in two other ways: a glob that covers only f1.py plus the diff (f2.py is in
+            # scope through the diff alone), and a plain scan without a diff
+            cases.append({"id": "baseglob-%d" % ri, "files": r["files"], "diff": r["diff"], "args": ["f1.py"], "terminal": False, "env": env})
+            cases.append({"id": "basescan-%d" % ri, "files": r["files"], "diff": None, "args": [], "terminal": True, "env": env})
         bres = vlib.run_cli(cases, trace_dir=tdir, timeout=60)
+        for ri, r in enumerate(repos):
+            for m in ("glob", "scan"):
+                b = bres["base%s-%d" % (m, ri)]
+                if b["outcome"] != "ok":
+                    raise vlib.ToolError("baseline %s run failed: %s" % (m, b.get("error")))
+                base[(ri, m)] = diag_set(b)
         for ri, r in enumerate(repos):
             sets = [diag_set(bres["base-%d-%d" % (ri, rep)]) for rep in range(3)]
             if any(bres["base-%d-%d" % (ri, rep)]["outcome"] != "ok" for rep in range(3)):
@@ -149,9 +160,20 @@ def run(chk):
                 args += ["-" + a["flag"], a["name"]] if (i + len(args)) % 2 == 0 else ["--%s=%s" % ({"d": "disable", "e": "enable"}[a["flag"]], a["name"])]
             for rep in range(reps):
                 cid = "inv-%d-%d" % (i, rep)
-                cases.append({"id": cid, "files": repos[ri]["files"], "diff": repos[ri]["diff"], "args": args,
-                              "terminal": False, "env": env})
-                meta[cid] = (inv, ri, args)
+                mode = ("diff", "glob", "scan")[(i // nrepos + rep) % 3]
+                case = {"id": cid, "files": repos[ri]["files"], "diff": repos[ri]["diff"], "args": args, "terminal": False, "env": env}
+                if inv["rejected"]:
+                    # rejection comes before anything else, whatever is (or is not) in scope
+                    if mode == "glob":
+                        case["diff"] = ""                      # empty diff: no block in scope
+                    elif mode == "scan":
+                        case.update(files={"notes.txt": "no blocks here\n", "x.py": "x = 1\n"}, diff=None, terminal=True)
+                elif mode == "glob":
+                    case["args"] = args + ["f1.py"] if rep % 2 else ["f1.py"] + args
+                elif mode == "scan":
+                    case.update(diff=None, terminal=True)
+                cases.append(case)
+                meta[cid] = (inv, ri, args, mode)
         # before the rejected runs: remember call counts
         for r in repos:
             if os.path.exists(r["log"]):
@@ -165,7 +187,7 @@ def run(chk):
                           {"note": "rejection must happen before anything is validated"})
         ares = vlib.run_cli([c for c in cases if not meta[c["id"]][0]["rejected"]], trace_dir=tdir, timeout=60)
         for c in cases:
-            inv, ri, args = meta[c["id"]]
+            inv, ri, args, mode = meta[c["id"]]
             r = (rres if inv["rejected"] else ares)[c["id"]]
             nontrivial = inv["rejected"] or set(inv["effective"]) != set(ALL)
             chk.count(nontrivial=nontrivial)
@@ -180,7 +202,7 @@ def run(chk):
             if r["outcome"] != "ok":
                 chk.violation("invocation %s must be accepted, but: %s" % (args, (r.get("error") or "")[:200]), detail)
                 continue
-            want = [d for d in base[ri] if d[1] in inv["effective"]]
+            want = [d for d in (base[ri] if mode == "diff" else base[(ri, mode)]) if d[1] in inv["effective"]]
             got = diag_set(r)
             if got != want:
                 chk.violation("with %s the report must be the unrestricted report restricted to %s: missing %s, extra %s" % (
